@@ -324,6 +324,27 @@ func (u *Unit) checkNormalExit(ex *Exit, n int) {
 
 // declaredModifies reports whether component name is covered by a modifies
 // class of the function under verification.
+// declaresClass: the contract's modifies clause lists class mc for the element type with key ek.
+func (u *Unit) declaresClass(mc, ek string) bool {
+	if u.old == nil {
+		return false
+	}
+	env := u.fnEnv(u.old)
+	for m := range u.ct.Modifies {
+		c, arg := m, ""
+		if i := indexByte(m, '('); i >= 0 {
+			c, arg = m[:i], m[i+1:len(m)-1]
+		}
+		if c != mc || arg == "" {
+			continue
+		}
+		if ae, err := parseSpec(arg); err == nil && elemKey(u.elemOf(env, ae)) == ek {
+			return true
+		}
+	}
+	return false
+}
+
 func (u *Unit) declaredModifies(name string) bool {
 	cls, key := name, ""
 	if i := strings.IndexByte(name, ':'); i >= 0 {
@@ -346,7 +367,7 @@ func (u *Unit) declaredModifies(name string) bool {
 			if cls == "H" && key == ek {
 				return true
 			}
-		case "hdr":
+		case "hdr", "newhdr":
 			for _, f := range hdrFields {
 				if cls == f && key == ek {
 					return true
